@@ -20,6 +20,12 @@ R9.4 join order: inputs are processed in chronological order of (date, time)
      for any given order, including start times with and without fractional
      seconds ('HH:MM:SS[.S]'); equal keys keep the given order; offsets are
      relative to the earliest input.
+R9.5 acquisition start of .tdms inputs (join orders its inputs and computes
+     its offsets from experiment date / time; .tdms files do not store
+     them): the reader derives the start as the file's modification time
+     minus the time of the last event (event times count from the start of
+     the acquisition) – compared as an exact rational function – and date
+     and time are formatted from that one instant.
 """
 from __future__ import annotations
 
@@ -27,6 +33,7 @@ import ast
 import math
 import time as _time
 
+from ..absval import Poly, Rat, ratfun
 from ..cfg import CFG
 from ..core import AnalysisError, dotted, enclosing_stmt, short, txt, walk
 from ..lib_C02 import (Arr, Ev, Feat, Mini, MiniError, ModelFault, NS, Opaque,
@@ -988,8 +995,159 @@ def r93_r94(ctx, repo):
     ctx.stat("R9.3/R9.4 join evaluations", n_eval[0])
 
 
+# ----------------------------------------------------------------------
+# R9.5 start time of tdms measurements
+
+TDMS = "dclab/rtdc_dataset/fmt_tdms/__init__.py"
+
+
+def _fmt(r):
+    def poly(p):
+        out = []
+        for mono, c in sorted(p.t.items()):
+            m = "*".join(s if e == 1 else f"{s}**{e}" for s, e in mono)
+            if not m:
+                out.append(f"{c}")
+            elif c == 1:
+                out.append(m)
+            elif c == -1:
+                out.append("-" + m)
+            else:
+                out.append(f"{c}*{m}")
+        return " + ".join(out).replace("+ -", "- ") or "0"
+    d = poly(r.d)
+    return poly(r.n) if d == "1" else f"({poly(r.n)}) / ({d})"
+
+
+def r95(ctx, repo):
+    cls = repo.cls(TDMS, "RTDC_TDMS")
+    # the method that formats date / time from a local-time struct
+    cands = []
+    for st in cls.body:
+        if isinstance(st, ast.FunctionDef):
+            # (a localtime() call without an instant is "now"; it cannot
+            # be the start and is judged by the formatting obligation)
+            lt = [c for c in walk(st) if isinstance(c, ast.Call)
+                  and (dotted(c.func) or "").endswith("localtime")
+                  and (c.args or c.keywords)]
+            if lt and any(isinstance(n, ast.Constant) and n.value in (
+                    "time", "date") for n in walk(st)):
+                cands.append((st, lt))
+    if len(cands) != 1 or len(cands[0][1]) != 1:
+        raise AnalysisError("RTDC_TDMS: the method deriving experiment "
+                            "date / time from a local time was not found")
+    f, (lt,) = cands[0]
+    if len(lt.args) != 1:
+        raise AnalysisError(f"{f.name}: time.localtime() without an instant")
+    env = {}
+
+    def resolve(e):
+        if isinstance(e, ast.Attribute) and e.attr == "st_mtime":
+            return "mtime"
+        if isinstance(e, ast.Call) and (dotted(e.func) or "").endswith(
+                "getmtime"):
+            return "mtime"
+        if isinstance(e, ast.Subscript) and isinstance(
+                e.value, ast.Subscript) and isinstance(
+                e.value.value, ast.Name) and e.value.value.id == "self" \
+                and isinstance(e.value.slice, ast.Constant) \
+                and e.value.slice.value == "time":
+            k = e.slice
+            if isinstance(k, ast.UnaryOp) and isinstance(
+                    k.op, ast.USub) and isinstance(k.operand, ast.Constant):
+                return f"t[-{k.operand.value}]"
+            if isinstance(k, ast.Constant):
+                return f"t[{k.value}]"
+            raise AnalysisError(f"{f.name}: event time `{txt(e)}` with a "
+                                f"computed index")
+        if isinstance(e, ast.Call) and isinstance(
+                e.func, ast.Name) and e.func.id == "float" \
+                and len(e.args) == 1:
+            return ratfun(e.args[0], resolve)
+        if isinstance(e, ast.Name):
+            return env.get(e.id)
+        return None
+
+    # fold the straight-line definitions of the instant (the branch taken
+    # when the dataset has a time feature)
+    arg = lt.args[0]
+    stop = enclosing_stmt(lt)
+
+    def fold(stmts):
+        for st in stmts:
+            if st is stop:
+                return True
+            if isinstance(st, ast.Assign) and len(st.targets) == 1 \
+                    and isinstance(st.targets[0], ast.Name):
+                try:
+                    env[st.targets[0].id] = ratfun(st.value, resolve)
+                except AnalysisError:
+                    env.pop(st.targets[0].id, None)
+            elif isinstance(st, ast.AugAssign) and isinstance(
+                    st.target, ast.Name) and st.target.id in env \
+                    and isinstance(st.op, (ast.Sub, ast.Add)):
+                v = ratfun(st.value, resolve)
+                cur = env[st.target.id]
+                env[st.target.id] = cur - v if isinstance(
+                    st.op, ast.Sub) else cur + v
+            elif isinstance(st, ast.If):
+                has_time = any(isinstance(c, ast.Compare) and isinstance(
+                    c.ops[0], ast.In) and isinstance(
+                    c.left, ast.Constant) and c.left.value == "time"
+                    for c in ast.walk(st.test))
+                neg = isinstance(st.test, ast.UnaryOp) and isinstance(
+                    st.test.op, ast.Not)
+                if has_time:
+                    if fold(st.orelse if neg else st.body):
+                        return True
+                else:
+                    for nm in {n.id for s in st.body + st.orelse
+                               for n in ast.walk(s)
+                               if isinstance(n, ast.Name)
+                               and isinstance(n.ctx, ast.Store)}:
+                        env.pop(nm, None)
+        return False
+    if not fold(f.body):
+        raise AnalysisError(f"{f.name}: statements before time.localtime() "
+                            f"could not be folded")
+    try:
+        got = ratfun(arg, resolve)
+    except AnalysisError as e:
+        raise AnalysisError(f"{f.name}: instant `{txt(arg)}` cannot be "
+                            f"folded ({e})")
+    want = Rat(Poly.sym("mtime")) - Rat(Poly.sym("t[-1]"))
+    ok = got.same(want)
+    ctx.ob("R9.5", ok,
+           "acquisition start of a .tdms measurement = modification time of "
+           "the file - time of the last event" if ok else
+           f"acquisition start of a .tdms measurement is computed as "
+           f"{_fmt(got)}, not as mtime - time[-1]: date / time of "
+           f"the measurement are shifted; join orders its inputs and "
+           f"computes its time / frame offsets from them", node=lt,
+           label="tdms start = mtime - last event time")
+    # date and time are formatted from that one instant
+    name = stop.targets[0].id if isinstance(stop, ast.Assign) and isinstance(
+        stop.targets[0], ast.Name) else None
+    fmts = {}
+    for c in walk(f):
+        if isinstance(c, ast.Call) and (dotted(c.func) or "").endswith(
+                "strftime") and len(c.args) == 2:
+            fmts[str(getattr(c.args[0], "value", txt(c.args[0])))] = txt(
+                c.args[1])
+    ok = name is not None and len(fmts) >= 2 and all(
+        v == name for v in fmts.values()) and any(
+        "%H:%M:%S" in k for k in fmts) and any("%Y-%m-%d" in k for k in fmts)
+    ctx.ob("R9.5", ok,
+           "experiment date and time are formatted from that instant"
+           if ok else f"date / time are not both formatted from the start "
+           f"instant ({fmts})", node=f, label="tdms date and time from one "
+                                              "instant")
+
+
 def run(ctx):
     repo = ctx.repo
+    ctx.rule("R9.5", "tdms reader: acquisition start = file mtime - time of "
+             "the last event; date and time from that instant", minimum=2)
     ctx.rule("R9.1", "no mutation of a container inside a `for` over a live "
              "view of it (dclab/cli)", minimum=1)
     ctx.rule("R9.2", "split: the exported masks partition the events in "
@@ -1001,6 +1159,7 @@ def run(ctx):
     r91(ctx, repo)
     r92(ctx, repo)
     r93_r94(ctx, repo)
+    r95(ctx, repo)
 
 
 def _re(pattern, repl):
@@ -1264,5 +1423,35 @@ TWINS = list(TWINS) + [
        '    """input path with its sorting key"""\n'
        "    key: tuple\n    path: object\n\n\ndef join(\n"),
       (_SORT_OLD, _SORT_NEW)]),
+]
+
+
+_TSE = '            tse -= self["time"][-1]\n'
+
+MUTANTS = list(MUTANTS) + [
+    ("tdms start: duration instead of the last event time (seeded)", TDMS,
+     (_TSE, '            tse -= self["time"][-1] - self["time"][0]\n'),
+     "R9.5"),
+    ("tdms start: first event time subtracted", TDMS,
+     (_TSE, '            tse -= self["time"][0]\n'), "R9.5"),
+    ("tdms start: duration added", TDMS,
+     (_TSE, '            tse += self["time"][-1]\n'), "R9.5"),
+    ("tdms start: duration not taken into account", TDMS,
+     ('        if "time" in self:\n'
+      "            # correct for duration of experiment\n" + _TSE, ""),
+     "R9.5"),
+    ("tdms date formatted from the current time", TDMS,
+     ('        datestr = time.strftime("%Y-%m-%d", loct)',
+      '        datestr = time.strftime("%Y-%m-%d", time.localtime())'),
+     "R9.5"),
+]
+
+TWINS = list(TWINS) + [
+    ("tdms start: duration in a local, plain subtraction", TDMS,
+     (_TSE, '            duration = self["time"][-1]\n'
+            "            tse = tse - duration\n")),
+    ("tdms start: modification time in a local", TDMS,
+     ("        tse = self.path.stat().st_mtime\n",
+      "        mtime = self.path.stat().st_mtime\n        tse = mtime\n")),
 ]
 
